@@ -55,7 +55,14 @@ def _collapse_invariants(
     # If one of the bases defines the list, we must set the list even if it is empty. Otherwise, the class would
     # refer to the list object of its base, and the invariant decorators applied later to the class would
     # add their invariants to the list of the base (and thus leak to the base and to all its other descendants).
-    if invariants or any(hasattr(base, invariants_dunder) for base in bases):
+    #
+    # Likewise, a list which is already in the namespace is replaced even if it is empty: it may belong to another
+    # class (*e.g.*, when a class is re-created from the namespace of an existing class).
+    if (
+        invariants
+        or invariants_dunder in namespace
+        or any(hasattr(base, invariants_dunder) for base in bases)
+    ):
         namespace[invariants_dunder] = invariants
 
     # endregion
